@@ -177,7 +177,24 @@ pub fn eval_expr_sem(e: &Expr, r: &Row, sem: &Sem) -> Option<bool> {
                 _ => Some(cmp_f(num(l)?, op, num(rv)?)),
             }
         }
-        Expr::ArithCmp(a, op, b) => Some(cmp_f(eval_arith(a, r)?, op, eval_arith(b, r)?)),
+        Expr::ArithCmp(a, op, b) => {
+            // `=` / `!=` between two plain operands is RDF term equality (no arithmetic is
+            // involved, so a non-numeric term is no error); everything else is numeric
+            if matches!(*op, "=" | "!=") {
+                let leaf = |x: &Arith| -> Option<Option<String>> {
+                    match x {
+                        Arith::Var(v) => Some(r.get(v).cloned()),
+                        Arith::Num(n) => Some(Some(n.to_string())),
+                        _ => None,
+                    }
+                };
+                if let (Some(x), Some(y)) = (leaf(a), leaf(b)) {
+                    let (x, y) = (x?, y?);
+                    return Some((x == y) == (*op == "="));
+                }
+            }
+            Some(cmp_f(eval_arith(a, r)?, op, eval_arith(b, r)?))
+        }
         Expr::Not(x) => eval_expr_sem(x, r, sem).map(|b| !b),
         Expr::And(a, b) => match (eval_expr_sem(a, r, sem), eval_expr_sem(b, r, sem)) {
             (Some(false), _) | (_, Some(false)) => Some(false),
